@@ -22,7 +22,10 @@ TRUSTED_BASE = [
     "Coq 8.16.1 kernel + vm_compute (bytecode VM) for evaluating the model on the cases",
     "harness/c14.py: fake entry points, recording digests, patch of logging.config.dictConfig, numbering of names",
     "model/Sections.v + model/Toposort.v are hand-written; tied to core/config.py, config/mapping.py, plugins.py "
-    "and site-packages/toposort.py by the correspondence run only",
+    "and site-packages/toposort.py by the correspondence run; the dependency computation of load_section_plugins "
+    "(core/config.py) additionally by translation (py2coq/units.py:gen_sections, trusted, fail-closed: exact four-statement "
+    "skeleton; gen/Gen_sections.v regenerated on every run, kit/SectionsIR.v, props/C14_tie.v); load_configuration, "
+    "SectionPlugin.load, constraints and toposort by correspondence only",
     "python dict/set semantics (unique keys, set difference) as transcribed in the model",
 ]
 ASSUMPTIONS = [
@@ -551,3 +554,19 @@ def shrink(case, still_fails):
             if changed:
                 break
     return cur
+
+
+# ------------------------------------------------------------------ translator tie
+TIE_TARGETS = ["props/C14_tie.vo"]
+
+
+def regen(chk):
+    """regenerate gen/Gen_sections.v from the current daemon/core/config.py"""
+    import os
+    from . import common
+    from py2coq import units
+    res = units.regen(common.REPO, os.path.join(common.COQDIR, "gen"), ["Gen_sections.v"])
+    chk.coverage["translator"] = res
+    bad = [v for v in res.values() if v != "ok"]
+    if bad:
+        raise RuntimeError(bad[0])
